@@ -76,8 +76,20 @@ def generate(cfile, only=None):
     obs = list(eng.obs)
     for fn, k in K.items():
         if k.lemmas and (not only or fn in only):
-            for label, hyps, goal in k.lemmas(LemmaCtx()):
-                obs.append(symex.Ob(fn, "lemma", label, hyps, goal, "corollary of the contract of %s" % fn))
+            for lem in k.lemmas(LemmaCtx()):
+                hyps = list(lem["hyps"])
+                for st in lem["steps"]:
+                    if isinstance(st, tuple):
+                        st = dict(label=st[0], goal=st[1], extra=[], keep=True)
+                    if st.get("goal") is None:          # conclusion of an induction (base and step precede it)
+                        hyps.append(st["assume"])
+                        continue
+                    obs.append(symex.Ob(fn, "lemma", "%s/%s" % (lem["label"], st["label"]),
+                                        hyps + list(st.get("extra", [])), st["goal"],
+                                        "lemma about the contract of %s (step %s)" % (fn, st["label"]),
+                                        split=lem.get("split", ()), insts=st.get("insts", ())))
+                    if st.get("keep", True):
+                        hyps.append(st["goal"])
     if hasattr(mod, "extra_obligations") and not only:
         for fn, kind, label, hyps, goal, detail in mod.extra_obligations(LemmaCtx()):
             obs.append(symex.Ob(fn, kind, label, hyps, goal, detail))
@@ -85,13 +97,14 @@ def generate(cfile, only=None):
     return obs, records
 
 
-def run(repo_path, only=None, cfile=None, wrapfile=None, jobs=None):
+def run(repo_path, only=None, cfile=None, wrapfile=None, jobs=None, timeout_ms=None):
     cfile = cfile or os.path.join(repo_path, REL_C)
     wrapfile = wrapfile or os.path.join(repo_path, REL_WRAP)
     obs, records = generate(cfile, only)
-    results = solve.aggregate(solve.discharge(obs, jobs=jobs)) + records
+    results = solve.aggregate(solve.discharge(obs, jobs=jobs, timeout=timeout_ms or solve.TIMEOUT_MS)) + records
     if not only or "specpart_wrap" in only:
         results.append(wrapcheck.gil_atomic(wrapfile))
+        results += wrapcheck.wrapper_preconditions(wrapfile)
     return results
 
 
@@ -129,12 +142,13 @@ def main(argv=None):
     ap.add_argument("--cfile")
     ap.add_argument("--wrapfile")
     ap.add_argument("--jobs", type=int)
+    ap.add_argument("--timeout-ms", type=int)
     ap.add_argument("-v", "--verbose", action="store_true")
     a = ap.parse_args(argv)
     t0 = time.time()
     only = set(a.only.split(",")) if a.only else None
     try:
-        results = run(a.repo, only, a.cfile, a.wrapfile, a.jobs)
+        results = run(a.repo, only, a.cfile, a.wrapfile, a.jobs, a.timeout_ms)
     except Exception as ex:  # fail closed
         import traceback
         traceback.print_exc()
